@@ -85,7 +85,7 @@ def passes_correspondence(accepted_and_rejected):
                 lines.append(json.dumps({"op": "mwb", "g": g_mc}))
                 meta.append(("mwb", o["name"], gi, rec, ren_mc))
             if "after_cx" in rec and "after_os" in rec:
-                # the forward pass `ordering_stalemates` (repo 3ac248c) vs Pxv.CG.resolveStalemates
+                # the forward pass `ordering_stalemates` (repo 437e3c1) vs Pxv.CG.resolveStalemates
                 g_cx, ren_cx = densify(rec["after_cx"]["g"])
                 lines.append(json.dumps({"op": "os", "g": g_cx}))
                 meta.append(("os", o["name"], gi, rec, ren_cx))
